@@ -12,7 +12,8 @@ DOMAINS = {  # the name domains the harnesses run with (Sim_* and the trace conf
     "tools": dict(topics=["u", "t:u", "t/u"], groups=["g", "g:t", "g/x"], parts=2),
 }
 DEVS = ["DevKeyAliasing", "DevDeleteKeepsOffsets", "DevCloneDropsTimeouts", "DevEtcdListOmitsSlash", "DevEtcdPartsOrder", "DevFetchDefaultZero",
-        "DevCommitUnchecked", "DevToolWrites", "DevToolReaps", "DevEscapeFastPath", "DevEtcdDeletePrefix"]
+        "DevCommitUnchecked", "DevToolWrites", "DevToolReaps", "DevEscapeFastPath", "DevEtcdDeletePrefix",
+        "DevStaleNextOffset", "DevGrowSameCountOk", "DevToolPersistsDefault", "DevToolGroupDefaults"]
 
 
 def S(xs):
@@ -68,12 +69,16 @@ def main():
     dv("EtcdListOmitsSlash", "NextStore", "C17_SameObs", "DevEtcdListOmitsSlash", groups=["g", "g/x"])
     dv("EtcdPartsOrder", "NextStore", "C17_SameObs", "DevEtcdPartsOrder")
     dv("StoreEscapeFastPath", "NextStore", "C17_SameObs", "DevEscapeFastPath", groups=["g:t", "g%3At"], topics=["u"], offs=[1], metas=["m"], variants=[1])
+    dv("StaleNextOffset", "NextTopicOps", "C17_SameObs", "DevStaleNextOffset", topics=["u"], groups=["g"], parts=1, offs=[1], metas=["m"], variants=[1], maxops=5)
+    dv("GrowSameCountOk", "NextStore", "C17_SameObs", "DevGrowSameCountOk", topics=["u"], groups=["g"], offs=[1], metas=["m"], variants=[1], maxops=2)
     dv("EtcdDeletePrefix", "NextTopicOps", "C17_SameObs", "DevEtcdDeletePrefix", topics=["o", "o-d"], groups=["g"], parts=1, offs=[1], metas=["m"], variants=[1], maxops=5)
     dv("FetchDefaultZero", "NextCoord", "C16_NeverCommitted", "DevFetchDefaultZero")
     dv("CoordKeyAliasing", "NextCoord", "C16_Isolation", "DevKeyAliasing")
     dv("CoordEscapeFastPath", "NextCoord", "C16_Isolation", "DevEscapeFastPath", groups=["g:t", "g%3At"], topics=["u"])
     dv("CommitUnchecked", "NextCoord", "C16_ReadBack", "DevCommitUnchecked", maxops=4)
     dv("ToolWrites", "NextTools", "C40_Unchanged", "DevToolWrites", offs=[1], metas=["m"], variants=[1], **tk)
+    dv("ToolPersistsDefault", "NextTools", "C40_Unchanged", "DevToolPersistsDefault", offs=[1], metas=["m"], variants=[1], maxops=2, **tk)
+    dv("ToolGroupDefaults", "NextTools", "C40_Unchanged", "DevToolGroupDefaults", offs=[1], metas=["m"], variants=[1, 2], maxops=2, **tk)
     dv("ToolReaps", "NextTools", "C40_Unchanged", "DevToolReaps", offs=[1], metas=["m"], variants=[1, 3], **tk)
     # simulation over the harness domains
     for mode, nxt, inv, mo, extra in (("store", "NextStore", SI, 14, {}), ("coord", "NextCoord", CI, 10, {}),
